@@ -33,7 +33,7 @@ def rand_vec(rng):
     return out
 
 
-def spawn_module(with_start, tag=0):
+def spawn_module(with_start, tag=0, decoy=None):
     """spawn(arg) calls the WASI import; the start function reports (tid, arg + tag) through a function it reaches via the
     IMPORTED table (a thread's child instance needs every kind of import of its parent) and bumps a shared cell."""
     g = lambda k: ["local.get", k]
@@ -46,10 +46,14 @@ def spawn_module(with_start, tag=0):
                                                        ["i32.const", b32(64)], ["i32.const", b32(1)], ["i32.atomic.rmw.add", 2, 0], ["drop"], ["end"]]},
                    {"type": 1, "locals": [], "body": [g(0), ["call", 1], ["end"]]},
                    {"type": 2, "locals": [], "body": [["i32.const", b32(64)], ["i32.atomic.load", 2, 0], ["end"]]},
-                   {"type": 0, "locals": [], "body": [g(0), g(1), ["call", 0], ["end"]]}],
+                   {"type": 0, "locals": [], "body": [g(0), g(1), ["call", 0], ["end"]]},
+                   # a function with the start function's signature that is NOT it (reports an argument no spawn passed)
+                   {"type": 0, "locals": [], "body": [g(0), g(1), ["i32.const", b32(7777)], ["i32.add"], ["call", 0], ["end"]]}],
          "elems": [{"offset": ["i32.const", b32(1)], "funcs": [5]}],
          "memory": {"min": 1, "max": 1, "shared": True},
-         "exports": ([{"name": "wasi_thread_start", "kind": "func", "idx": 2}] if with_start else [{"name": "not_the_start", "kind": "func", "idx": 2}]) +
+         # (decoy: an export whose name is near "wasi_thread_start" - a prefix of it, it a prefix of the name, another case - listed first)
+         "exports": ([{"name": decoy, "kind": "func", "idx": 6}] if decoy else []) +
+                    ([{"name": "wasi_thread_start", "kind": "func", "idx": 2}] if with_start else [{"name": "not_the_start", "kind": "func", "idx": 2}]) +
                     [{"name": "spawn", "kind": "func", "idx": 3}, {"name": "cell", "kind": "func", "idx": 4}, {"name": "memory", "kind": "memory", "idx": 0}]}
     return m
 
@@ -96,6 +100,27 @@ def main():
             shutil.rmtree(sb, ignore_errors=True)
             return p.returncode, [json.loads(l) for l in p.stdout.decode().splitlines() if l.startswith("{")], p.stderr.decode("utf8", "replace")
         vec_out = pmap(run_vec, range(nv))
+        # the same calls in a memory of 65536 pages: placements around and above 2^31 and up to the last byte of a 32-bit address space
+        def run_big(j):
+            argv, env = cfgs[j]
+            lines, places = [], []
+            for cmd, vec in (("bigargs", argv), ("bigenv", env)):
+                total, nptr = sum(len(x) + 1 for x in vec), 4 * len(vec)
+                for pa, ba in ((0x10000, 2 ** 31 - total // 2), (2 ** 31 - 4 * (len(vec) // 2 + 1), 0x20000), (0x90000000, 0xA0000001),
+                               (2 ** 32 - nptr, 2 ** 32 - nptr - total - 64), (0x7FFFFFF0 - nptr, 2 ** 32 - total)):
+                    lines.append("%s %s %d %d" % (cmd, "pu"[(j + len(places)) % 2], pa, ba))
+                    places.append((cmd, vec, pa, ba))
+            sf = os.path.join(wd, "big%d.txt" % j)
+            open(sf, "w").write("\n".join(lines) + "\n")
+            sb = os.path.join(wd, "bsb%d" % j)
+            os.makedirs(sb, exist_ok=True)
+            import subprocess
+            p = subprocess.run([exe, sb, sf] + list(argv) + [b"--"] + list(env), stdout=subprocess.PIPE, stderr=subprocess.PIPE,
+                               env=dict(os.environ, ASAN_OPTIONS="detect_leaks=0"), timeout=120)
+            shutil.rmtree(sb, ignore_errors=True)
+            return places, p.returncode, [json.loads(l) for l in p.stdout.decode().splitlines() if l.startswith("{")], p.stderr.decode("utf8", "replace")
+        big_sel = [j_ for j_ in range(nv) if cfgs[j_][0] and cfgs[j_][1]][:8 if tier == "quick" else 200]
+        big_out = dict(zip(big_sel, pmap(run_big, big_sel)))
         # the same vectors in the configuration of a big-endian host (forced on this machine: every multi-byte value the
         # host stores into guest memory is then byte-swapped with respect to the raw bytes, consistently for loads and stores,
         # so the raw image must hold the pointers and sizes most significant byte first)
@@ -266,10 +291,15 @@ def main():
             owner.append(("exit", code, rc))
         # --- thread spawn: translated module + real threads
         w2c2 = common.build_w2c2(os.path.join(wd, "bin"))
-        for tag, with_start in (("start", True), ("nostart", False)):
+        NEAR = ["wasi_thread_started", "wasi_thread_star", "wasi_thread_start_", "_wasi_thread_start", "WASI_THREAD_START", "wasi_thread_start ", "wasi-thread-start",
+                "wasi_thread_startwasi_thread_start", "w"]
+        near_sel = NEAR[:3] if tier == "quick" else NEAR
+        variants = [("start", True, None), ("nostart", False, None), ("decoyfirst", True, "wasi_thread_started"), ("decoyfirst2", True, "wasi_thread_star")] + \
+                   [("near%d" % i_, False, nm_) for i_, nm_ in enumerate(near_sel)]
+        for tag, with_start, decoy in variants:
             d = os.path.join(wd, "ts-" + tag)
             os.makedirs(d)
-            open(os.path.join(d, "ts.wasm"), "wb").write(wasm_encode.encode(machine.enc_module(spawn_module(with_start))))
+            open(os.path.join(d, "ts.wasm"), "wb").write(wasm_encode.encode(machine.enc_module(spawn_module(with_start, 0, decoy))))
             rc, so, se = run([w2c2, "-t", "1", "ts.wasm", "ts.c"], cwd=d, timeout=60)
             if rc != 0:
                 raise common.MachineryError("cannot translate the spawn module: " + se[-400:])
@@ -278,7 +308,7 @@ def main():
                               os.path.join(BINDC, "spawn_driver.c"), os.path.join(d, "ts.c"), os.path.join(REPO, "wasi", "wasi.c"), "-o", exe_s, "-lpthread", "-lm"], timeout=300)
             if rc != 0:
                 raise common.MachineryError("cannot build the spawn driver: " + se[-1500:])
-            for K in ([1, 2, 4, 8] if tier == "quick" else [1, 2, 3, 4, 8, 8, 16, 32, 32]) if with_start else [2]:
+            for K in ([1, 2, 4, 8] if tier == "quick" else [1, 2, 3, 4, 8, 8, 16, 32, 32]) if (with_start and not decoy) else [2]:
                 for rep in range(3 if tier == "quick" else 30):
                     # the last repetition: every thread spawns many times, all meeting before each call
                     M_ = (25 if tier == "quick" else 60) if (with_start and K >= 4 and rep == 2) else 1
@@ -367,6 +397,24 @@ def main():
                   lay = judged["layouts"][li]
                   li += 1
                   sizes, L = lay["s"], lay["l"]
+                  if variant == 0 and order == "little" and tagb == "" and j in big_out:
+                      # the big-memory placements: the specification's layout, rebased (TLC's integers end at 2^31 - 1)
+                      places, brc, bout, berr = big_out[j]
+                      for pi, (bcmd, bvec, bpa, bba) in enumerate(places):
+                          if bvec is not vec or (bcmd == "bigargs") != (which == "args"):
+                              continue
+                          r_ = next((x for x in bout if x.get("i") == pi + 1), None)
+                          if r_ is None:
+                              v.deviation(wasi.asan_sig(berr) or "%s:crash:memory-of-65536-pages" % which, {"vector": [x.hex() for x in vec], "ptrs_at": hex(bpa), "strings_at": hex(bba), "stderr": berr[-400:]})
+                              break
+                          if r_.get("nomem"):
+                              continue
+                          compared += 1
+                          want_ptrs = [p_ - (BIG + 0x1000) + bba for p_ in L["ptrs"]]
+                          if r_["errno"] != 0 or r_["ptrs"] != want_ptrs or bytes.fromhex(r_["bytes"]) != bytes(L["bytes"]) or not r_["guards"] or \
+                                  (r_["count"], r_["total"]) != (sizes["count"], sizes["total"]):
+                              v.deviation("%s:layout:memory-of-65536-pages" % which, {"vector": [x.hex() for x in vec], "ptrs_at": hex(bpa), "strings_at": hex(bba), "errno": r_["errno"],
+                                                                                      "guards_intact": r_["guards"], "ptrs": r_["ptrs"][:4], "expected_ptrs": want_ptrs[:4]})
                   sz, gt = by.get("argsizes" if which == "args" else "envsizes"), (by.get(which) if line is None else byi.get(line))
                   if line is None:
                       gt = next((r for r in out if r.get("call") == which and r["i"] <= 4), None)
